@@ -72,7 +72,7 @@ Print Assumptions C17_codegen_semantics.
    symbols with exponents) denotes |number prefactor| * symbols. *)
 Theorem C17_prefactor_value :
   forall (S : Scalar) (T : tmodel S) (hf : bool) (be : backend) (nums : list numarg)
-         (syms : list (option string * nat)) (pf : list pfac),
+         (syms : list (string * nat)) (pf : list pfac),
     format_prefactor hf be nums syms = Ok pf ->
     kprod (map (pfac_val S T) pf) =
     kmul S (kprod (map (numarg_val S T) nums)) (syms_val S T syms).
@@ -97,12 +97,15 @@ Proof. exact perm_apply_semantics. Qed.
 Print Assumptions C17_perm_apply_semantics.
 
 (* Refusals (NotImplementedError): an operand is refused exactly for a partial
-   trace on a libtensor tensor *)
+   trace on a libtensor tensor, or for an index name that is not a single
+   letter on a numpy tensor (numbered indices) *)
 Theorem C17_refusal_exact_operand :
   forall (cfg : tnames) (be : backend) (cache : list (string * cexpr))
          (con : list index) (op : string * list index),
     format_operand cfg be cache con op = Refuse <->
-    be = Libtensor /\ is_contraction (fst op) = false /\ partial_trace con (snd op) = true.
+    is_contraction (fst op) = false /\
+    (be = Einsum /\ multi_letter (snd op) = true \/
+     be = Libtensor /\ partial_trace con (snd op) = true).
 Proof. exact refusal_exact_operand. Qed.
 Print Assumptions C17_refusal_exact_operand.
 
@@ -115,12 +118,16 @@ Theorem C17_refusal_exact_number :
 Proof. exact refusal_exact_number. Qed.
 Print Assumptions C17_refusal_exact_number.
 
-(* the numpy backend never refuses a contraction *)
-Theorem C17_refusal_never_einsum :
+(* the numpy backend refuses a contraction exactly if one of its tensors
+   carries an index whose name is not a single letter (inner results being
+   available in the cache) *)
+Theorem C17_refusal_exact_einsum :
   forall (cfg : tnames) (cache : list (string * cexpr)) (st : cstep),
-    format_contraction cfg Einsum cache st <> Refuse.
-Proof. exact refusal_never_einsum. Qed.
-Print Assumptions C17_refusal_never_einsum.
+    (forall op, In op (cs_ops st) -> is_contraction (fst op) = true -> lookup (fst op) cache <> None) ->
+    (format_contraction cfg Einsum cache st = Refuse <->
+     exists op, In op (cs_ops st) /\ is_contraction (fst op) = false /\ multi_letter (snd op) = true).
+Proof. exact refusal_exact_einsum. Qed.
+Print Assumptions C17_refusal_exact_einsum.
 
 (* libtensor refuses a contraction only for a partial trace or when there are
    neither contracted nor target indices (one direction: _partial) *)
